@@ -35,6 +35,22 @@ def addressOfText (text : List Char) : Option Sx :=
     else none
   | _ => none
 
+/-- the components of a direct address: location, size, numeric parts (what C09 compares) -/
+def addressParts (text : List Char) : Option (String × String × List Nat) :=
+  match text with
+  | '%' :: l :: rest =>
+    let loc := l.toUpper
+    if !(loc == 'I' || loc == 'Q' || loc == 'M') then none else
+    if rest == ['*'] then some (String.singleton loc, "Unspecified", []) else
+    let (size, digits) := match rest with
+      | s :: ds => if (s.toUpper == 'X' || s.toUpper == 'B' || s.toUpper == 'W' || s.toUpper == 'D' || s.toUpper == 'L') then (String.singleton s.toUpper, ds) else ("Nil", rest)
+      | [] => ("Nil", rest)
+    let parts := ((String.ofList digits).splitOn ".").map fun p => natOfDigits 10 p.toList
+    if parts.all (fun p => match p with | some v => v < 2 ^ 32 | none => false) then
+      some (String.singleton loc, size, parts.filterMap id)
+    else none
+  | _ => none
+
 def directVariable : P Sx := do
   let t ← tok "DirectAddress"
   liftO (addressOfText t.text)
